@@ -42,7 +42,29 @@ def _norm(p):
 _factor_cache = {}
 
 
-def _factors(p, limit=160):
+class _Alarm(Exception):
+    pass
+
+
+def _with_alarm(seconds, fn, *a):
+    import signal
+
+    def handler(signum, frame):
+        raise _Alarm()
+
+    try:
+        old = signal.signal(signal.SIGALRM, handler)
+    except ValueError:  # not in the main thread
+        return fn(*a)
+    prev = signal.setitimer(signal.ITIMER_REAL, seconds)
+    try:
+        return fn(*a)
+    finally:
+        signal.setitimer(signal.ITIMER_REAL, 0)
+        signal.signal(signal.SIGALRM, old)
+
+
+def _factors(p, limit=80):
     """list of non-constant irreducible factors (over Z[I_, x]); [p] if too large to factor"""
     if len(p) > limit or p.is_ground:
         return [p]
@@ -50,8 +72,10 @@ def _factors(p, limit=160):
     r = _factor_cache.get(key)
     if r is None:
         try:
-            _, fl = p.factor_list()
+            _, fl = _with_alarm(1.5, p.factor_list)
             r = [f for f, _ in fl]
+        except _Alarm:
+            r = [p]
         except Exception:
             r = [p]
         if len(_factor_cache) > 20000:
